@@ -178,6 +178,17 @@ func runC07(r *core.Run) {
 		add("S9", []string{"core"}, 2, "func")
 	}
 
+	if only := os.Getenv("VERIF_C07_ONLY"); only != "" {
+		// screening aid for tools/try_patch.sh: run only the named scenarios (never used by a registered check command)
+		var kept []c07Job
+		for _, j := range jobs {
+			if strings.Contains(","+only+",", ","+j.Scenario+",") {
+				kept = append(kept, j)
+			}
+		}
+		jobs = kept
+		fmt.Println("  SCREENING: only scenarios", only)
+	}
 	nsh := core.Workers()
 	type task struct{ job, shard int }
 	var tasks []task
